@@ -222,7 +222,7 @@ class FaultyIntegrator:
 # --------------------------------------------------------------------------
 class OdeFaultPlan:
     def __init__(self, kind: str = "none", at_step: int = 0) -> None:
-        self.kind = kind  # none | unsuccessful | nan | stall
+        self.kind = kind  # none | unsuccessful | nan | stall | interrupt
         self.at_step = at_step
         self.fired = 0
         self.steps = 0
@@ -239,6 +239,11 @@ def _make_faulty_ode(real_ode):  # noqa: ANN001, ANN202
             plan.steps += 1
             if plan.kind != "none" and plan.steps - 1 >= plan.at_step:
                 plan.fired += 1
+                if plan.kind == "interrupt":
+                    from simkit.fnlib import SimInterrupt
+
+                    plan.kind = "none"  # once
+                    raise SimInterrupt  # Ctrl-C while the search is under way
                 self._sim_failed = True
                 if plan.kind == "nan":
                     self._y = np.full_like(np.asarray(self._y, dtype=float), np.nan)
